@@ -12,6 +12,7 @@ import (
 
 	"verif/internal/ev"
 	"verif/internal/g"
+	"verif/internal/lat"
 	"verif/internal/mesh"
 )
 
@@ -161,3 +162,71 @@ func TestOctreeDeepLattice(t *testing.T) {
 }
 
 func sq(x float64) float64 { return x * x }
+
+// TestUniformLargeLayers: the vertex bounds at resolutions where one lattice layer of the uniform renderer
+// has more than 10 000 points (100+ cells along y and z: the renderer's evaluation queue runs full, all of
+// its workers are busy), for a field whose evaluations take a varying time. Oracle: |f(v)| <= h for the
+// exact distance fields of a sphere and a box (for the sphere h^2/(8(R-h))), every vertex inside the
+// sampled box, the two end faces of the slab within one cell diagonal of the mesh.
+func TestUniformLargeLayers(t *testing.T) {
+	rec := ev.Get()
+	rapid.Check(t, func(t *rapid.T) {
+		kind := rapid.SampledFrom([]string{"sphere", "slab", "slab"}).Draw(t, "kind")
+		cells := rapid.IntRange(100, ev.Pick(170, 260)).Draw(t, "cells")
+		var s sdf.SDF3
+		R := 0.0
+		switch kind {
+		case "sphere":
+			R = g.Length(t, "R", 0.5, 5)
+			s, _ = sdf.Sphere3D(R)
+		default:
+			a := g.Length(t, "a", 1, 5)
+			s, _ = sdf.Box3D(v3.Vec{X: a * g.F(0.05, 0.2).Draw(t, "thin"), Y: a, Z: a * g.F(0.7, 1).Draw(t, "zy")}, 0)
+		}
+		c := v3.Vec{X: g.Coord(t, "cx", 10), Y: g.Coord(t, "cy", 10), Z: g.Coord(t, "cz", 10)}
+		s = sdf.Transform3D(s, sdf.Translate3d(c))
+		bb := s.BoundingBox()
+		sz := bb.Size()
+		h := sz.MaxComponent() / float64(cells)
+		layer := (int(sz.Y/h) + 2) * (int(sz.Z/h) + 2)
+		mode := rapid.SampledFrom([]int{2, 1, 0}).Draw(t, "evaluation-cost")
+		ts := render.ToTriangles(&lat.Perturb3{S: s, Mode: mode}, render.NewMarchingCubesUniform(cells))
+		desc := fmt.Sprintf("%s of size %v at %v, uniform, %d cells (layers of ~%d points)", kind, sz, c, cells, layer)
+		bound := h*(1+1e-9) + 1e-9*c.Length()
+		if kind == "sphere" && R > 2*h {
+			bound = h*h/(8*(R-h)) + 1e-9*(R+c.Length())
+		}
+		bad, outside := 0, 0
+		worst := 0.0
+		var where v3.Vec
+		seen := map[v3.Vec]bool{}
+		for _, tr := range ts {
+			for _, v := range tr {
+				if seen[v] {
+					continue
+				}
+				seen[v] = true
+				if d := math.Abs(s.Evaluate(v)); d > bound {
+					bad++
+					if d > worst {
+						worst, where = d, v
+					}
+				}
+				if !inBox(v, bb.Min.SubScalar(1.01*h), bb.Max.AddScalar(1.01*h), 1e-9*h) {
+					outside++
+				}
+			}
+		}
+		if len(ts) == 0 {
+			rec.Violation(t, "MarchingCubes:uniform:large-layers:empty-mesh", "%s: no triangles", desc)
+		}
+		if bad > 0 {
+			rec.Violation(t, "MarchingCubes:uniform:large-layers:vertex-off-surface", "%s: %d of %d vertices have |f(v)| above what the lattice allows (%v), worst %v at %v", desc, bad, len(seen), bound, worst, where)
+		}
+		if outside > 0 {
+			rec.Violation(t, "MarchingCubes:uniform:large-layers:vertex-outside-sampled-box", "%s: %d vertices outside the padded box", desc, outside)
+		}
+		rec.Add("large-layers:vertices-checked", int64(len(seen)))
+		rec.Case(layer > 10100, ev.Key("large", desc, mode), "large-layers:"+kind, fmt.Sprintf("large-layers:layer>10100=%v", layer > 10100), fmt.Sprintf("large-layers:evaluation-cost-mode=%d", mode))
+	})
+}
